@@ -297,8 +297,11 @@ class Exec:
     def contains(self, s, op, l, r):
         neg = isinstance(op, ast.NotIn)
         if isinstance(r, VGhostMap):
-            present, _ = self.ghost_lookup(s, r, l)
-            return [(s, VBool(z3.Not(present) if neg else present))]
+            outs = []
+            for s1 in self.ghost_hashable(s, l):      # `key in dict` hashes the key too
+                present, _ = self.ghost_lookup(s1, r, l)
+                outs.append((s1, VBool(z3.Not(present) if neg else present)))
+            return outs
         if isinstance(r, VDictRef) and isinstance(l, VPy):
             c = z3.BoolVal(l.o in dict(s.hget(('dict', r.rid), ())))
             return [(s, VBool(z3.Not(c) if neg else c))]
@@ -934,8 +937,10 @@ class Exec:
     def ghost_hashable(self, s, k):
         """dict operations raise TypeError for an unhashable key: -> states in which the key is hashable (the raising branch is queued)"""
         if not self.ghost_unhashable or isinstance(k, VTup) and all(isinstance(c, (VInt, VPy)) for c in k.items): return [s]
-        kt = self.obj(k); outs = []
-        for s2, h in self.fork(s, M.hashable(kt)):
+        # a tuple is hashable iff each of its components is
+        cond = z3.And(*[M.hashable(self.obj(c)) for c in k.items if not isinstance(c, (VInt,))]) if isinstance(k, VTup) else M.hashable(self.obj(k))
+        outs = []
+        for s2, h in self.fork(s, cond):
             if h: outs.append(s2)
             else: self.raised.append((s2.ev('unhashable_key'), VExc(TypeError)))
         return outs
